@@ -128,11 +128,11 @@ class HG:
             if k < 0.25 and "ctor-factory" not in self.avoid:
                 # constructors that are closures of ONE function definition (a factory, a loop): still one prototype object each
                 if self.r.random() < 0.5:
-                    return "CTORS.push(MKCTOR(%d)); CTORS[%d].prototype.m = function () { return 'mk%d' + this.a; };" % (i, i, i)
+                    return "CTORS.push(MKCTOR(%d)); CTORS[%d].prototype.m = function () { return 'mk%d' + SV(this.a); };" % (i, i, i)
                 self.nctor += 1
                 return ("for (var fi_ = 0; fi_ < 2; fi_++) { CTORS.push(function KL(v) { this.zz = v; }); } CTORS[%d].prototype.k1 = 'loop%d';" % (i, i))
             if k < 0.4 or self.n == 0:
-                return "CTORS.push(function K%d(v) { this.a = v; }); CTORS[%d].prototype.m = function () { return 'm' + this.a; };" % (i, i)
+                return "CTORS.push(function K%d(v) { this.a = v; }); CTORS[%d].prototype.m = function () { return 'm' + SV(this.a); };" % (i, i)
             if k < 0.7:
                 return "CTORS.push(function K%d(v) { this.k1 = v; }); CTORS[%d].prototype = %s;" % (i, i, self.plain())
             return ("CTORS.push(function K%d(v) { this.zz = v; }); CTORS[%d].prototype = Object.create(CTORS[%d].prototype); "
